@@ -306,6 +306,28 @@ func genContainer(c *Ctx) {
 			}
 			return [][]byte{cb, d}
 		}), facts, []W{WList(WInt(0x13), WInt(64), WBytes(set[victim].b), WBytes(d512[:]))})
+		// identity-multihash CIDs: the empty CID, the identity CID of other bytes, the identity CID of the data itself
+		emitBoth("ctn/cidform/identity-empty", true, build(func(i int, cb, d []byte) [][]byte {
+			if i == victim {
+				return [][]byte{container.EmptyCid.Bytes(), d}
+			}
+			return [][]byte{cb, d}
+		}), facts, nil)
+		idOther, _ := cid.V1Builder{Codec: cid.DagCBOR, MhType: mh.IDENTITY}.Sum([]byte("not the data"))
+		emitBoth("ctn/cidform/identity-other", true, build(func(i int, cb, d []byte) [][]byte {
+			if i == victim {
+				return [][]byte{idOther.Bytes(), d}
+			}
+			return [][]byte{cb, d}
+		}), facts, nil)
+		if idSelf, err := (cid.V1Builder{Codec: cid.DagCBOR, MhType: mh.IDENTITY}).Sum(set[victim].b); err == nil {
+			emitBoth("ctn/cidform/identity-self", true, build(func(i int, cb, d []byte) [][]byte {
+				if i == victim {
+					return [][]byte{idSelf.Bytes(), d}
+				}
+				return [][]byte{cb, d}
+			}), facts, []W{WList(WInt(0), WInt(int64(len(set[victim].b))), WBytes(set[victim].b), WBytes(set[victim].b))})
+		}
 		// framing: truncated last section, zero-length section, oversize length, cut between blocks
 		full := build(nil)
 		emitBoth("ctn/corrupt/truncated-section", true, full[:len(full)-1-c.R.Intn(20)], facts, nil)
